@@ -11,7 +11,7 @@ EXHAUSTIVE = True
 RULE = ("EXHAUSTIVE, every run: all ordered pairs of a boundary set of 71 JSON values (0, -0.0, ±1, 2^53±1, i64::MIN/MAX, "
         "u64::MAX, 2^63, 2^64 as floats, tiny/huge/subnormal floats, numeric and non-numeric strings, booleans, null, arrays, "
         "objects) x the six operators eq ne gt gte lt lte (one template per pair prints all six); and/or over all truthiness "
-        "vectors of length 0..4; not and len on every value; plus random integer/float pairs biased to near-equal "
+        "vectors of length 0..4; not and len on every value; the same six operators with one or both operands WRITTEN AS NUMBER LITERALS in the template (30 spellings incl. i64/u64 limits, 2^64, -0.0, exponent form) against each other and against every number of the boundary set; plus random integer/float pairs biased to near-equal "
         "magnitudes; oracle = exact comparison of the mathematical values (Python int / Fraction), code-point order of "
         "strings, false<true, numeric strings through the number they denote, JSON equality; non-trivial = the pair is "
         "comparable; distinct by pair")
@@ -138,6 +138,24 @@ def generate(rng, n, tier="quick"):
         case["id"] = "%s-p%05d" % (ID, k)
         k += 1
         out.append((case, {"mode": "pair", "expect": expect_pair(x, y), "cmp": compare_json(x, y) is not None}))
+    # numbers WRITTEN IN THE TEMPLATE as literals (the literal's value is the JSON number its spelling denotes): every pair of
+    # literals, and every literal against every number of the boundary set passed as data, on either side
+    lits = [(str(i), i) for i in INTS] + [("0.5", F.of(0.5)), ("1.5", F.of(1.5)), ("-0.0", F.of(-0.0)), ("2.0", F.of(2.0)), ("1E3", F.of(1000.0)),
+            ("-10.0", F.of(-10.0)), ("0.25", F.of(0.25)), ("9007199254740992.0", F.of(2.0 ** 53)), ("18446744073709551616", F.of(2.0 ** 64)),
+            ("-9223372036854775809", F.of(-(2.0 ** 63))), ("18446744073709551614", 2 ** 64 - 2), ("9223372036854775806", 2 ** 63 - 2)]
+    nums = [v for v in vs if exact(v) is not None]
+    def lit_case(tpl, data, x, y):
+        nonlocal k
+        case = session({"escape": "none"}, [], {"api": "render_template", "src": tpl}, data)
+        case["id"] = "%s-l%05d" % (ID, k)
+        k += 1
+        out.append((case, {"mode": "literal", "expect": expect_pair(x, y), "cmp": True}))
+    for (sx, x), (sy, y) in itertools.product(lits, repeat=2):
+        lit_case(TPL.replace(" a ", " %s " % sx).replace(" b}}", " %s}}" % sy), {}, x, y)
+    for (sx, x) in lits:
+        for y in nums:
+            lit_case(TPL.replace(" a ", " %s " % sx), {"b": y}, x, y)
+            lit_case(TPL.replace(" b}}", " %s}}" % sx), {"a": y}, y, x)
     # and / or over all truthiness vectors of length 0..4, not, len
     tv = [True, False, 0, 1, "", "x", [], [0], None, {}, F.of(0.0), F(1)]
     for L in range(0, 5):
